@@ -92,7 +92,7 @@ func TestVsReplayC18(t *testing.T) {
 	case m.Harness == "text_roundtrip":
 		k := NewExtendedKey([]byte{0x04, 0x88, 0xad, 0xe4}, append([]byte{}, key...), cc, []byte{1, 2, 3, 4}, depth, uint32(m.u("childnum")), true)
 		if len(key) == 0 {
-			fmt.Println("VSREPLAY-NOT-REPRODUCED: public-key case has no native driver")
+			fmt.Println("VSREPLAY-NO-SCENARIO: public-key case has no native driver")
 			return
 		}
 		txt := k.String()
@@ -138,6 +138,6 @@ func TestVsReplayC18(t *testing.T) {
 		}
 		fmt.Println("VSREPLAY-NOT-REPRODUCED: 6000 indices derived consistently from the public and the private parent")
 	default:
-		fmt.Println("VSREPLAY-NOT-REPRODUCED: no native oracle for harness", m.Harness)
+		fmt.Println("VSREPLAY-NO-SCENARIO: no native oracle for harness", m.Harness)
 	}
 }
